@@ -47,7 +47,29 @@ def oracle_just_once(rep, prop, case, chain):
                             return
 
 
-ORACLES = [oracle_just_once, l1.oracle_dense_ids, l1.oracle_refs_resolve]
+def oracle_bindings_stable(rep, prop, case, chain):
+    """After the first iteration of the first run no just_once row is created any more, so what the
+    persistent nickname / table-name bindings denote (observed on the real Globals after every
+    boundary, incl. right after loading a continuation file) must never change again."""
+    if not chain.trace:
+        return
+    first = None
+    for i, op in enumerate(chain.trace.ops):
+        if op["op"][0] in ("end", "saveload") and "st" in op:
+            cur = (op["st"]["pn"], op["st"]["pt"])
+            if first is None:
+                first = cur
+            elif cur != first:
+                rep.violation(f"{prop}:persistent-binding-changed",
+                              f"after boundary #{i} ({op['op'][0]}) the just_once bindings are {cur}, they were {first} after the first iteration",
+                              case, first, cur)
+                return
+        elif op["op"][0] == "create" and op["op"][3] and first is not None:
+            rep.violation(f"{prop}:just-once-created-late", f"just_once row {op['op'][1]}({op['obs'][1]}) created after the first iteration", case)
+            return
+
+
+ORACLES = [oracle_just_once, oracle_bindings_stable, l1.oracle_dense_ids, l1.oracle_refs_resolve]
 
 
 def gen_case(rng):
